@@ -1170,3 +1170,19 @@ Proof.
   cbn [bind]. eexists. split; [reflexivity|]. cbn [r_got r_payload b_data].
   split; [rewrite app_length; cbn [length]; lia|reflexivity].
 Qed.
+
+(* the reader's side of the framing, for every operation list including arbitrary tampering and with
+   no assumption on dec: the bytes the reader took from the transport are exactly the frames it
+   accepted followed by its frame buffer; what it delivered, followed by its payload buffer, is exactly
+   the concatenation of the plaintexts of the accepted frames in order; and the i-th accepted frame is
+   one whose ciphertext (of the announced length) decrypts under nonce i to that plaintext *)
+Lemma c13_reader_frames enc dec PC : pc_ok PC -> aead_len enc ->
+  forall ops s, run enc dec (sim_init PC) ops = Ok s ->
+  n_rin (s_net s) = concat (map rawframe (r_got (s_r s))) ++ b_data (r_frame (s_r s)) /\
+  s_delivered s ++ b_data (r_payload (s_r s)) = concat (map plain (r_got (s_r s))) /\
+  (forall i h c p, nth_error (r_got (s_r s)) i = Some (h, c, p) ->
+     dec i c = Some p /\ length c = dec16 h).
+Proof.
+  intros Hpc HL ops s Hr.
+  destruct (reachable_inv enc dec PC Hpc HL ops s Hr) as ((_ & HR & _) & _). exact HR.
+Qed.
